@@ -988,6 +988,9 @@ func (w *Worker) chanRecv(cv Value, commaOk bool) Value {
 		v = w.zero(c.ET)
 		okv = false
 	default:
+		if w.runPending() {
+			return w.chanRecv(cv, commaOk)
+		}
 		panic(pathAbort{"unsupported", "channel receive would block (goroutines are not modelled)"})
 	}
 	if commaOk {
@@ -996,8 +999,39 @@ func (w *Worker) chanRecv(cv Value, commaOk bool) Value {
 	return v
 }
 
+// Goroutines, sequential model: a `go` statement queues the call; queued
+// goroutines run to completion, in creation order, when the running code would
+// block on a channel receive or WaitGroup.Wait (one legal schedule; a goroutine
+// that itself blocks is unsupported). Goroutines still queued when the entry
+// function returns are run then.
+type pendingGo struct {
+	fn   Value
+	args []Value
+}
+
 func (w *Worker) goStmt(fr *frame, instr *ssa.Go) {
-	panic(pathAbort{"unsupported", "go statement in " + fr.fn.String()})
+	if !w.P.Goroutines {
+		panic(pathAbort{"unsupported", "go statement in " + fr.fn.String()})
+	}
+	fn, args := fr.prepareCall(&instr.Call)
+	w.pending = append(w.pending, pendingGo{fn, args})
+}
+
+// runPending runs queued goroutines; reports whether any ran.
+func (w *Worker) runPending() bool {
+	if len(w.pending) == 0 || w.inGo {
+		return false
+	}
+	for len(w.pending) > 0 {
+		g := w.pending[0]
+		w.pending = w.pending[1:]
+		w.inGo = true
+		func() {
+			defer func() { w.inGo = false }()
+			w.callValue(nil, g.fn, g.args)
+		}()
+	}
+	return true
 }
 
 func (w *Worker) selectStmt(fr *frame, instr *ssa.Select) Value {
